@@ -1126,3 +1126,12 @@ pub fn sender_unsettled_tags(sender: &crate::link::Sender) -> Vec<Vec<u8>> {
         .map(|m| m.keys().map(|k| k.to_vec()).collect())
         .unwrap_or_default()
 }
+
+/// frames::amqp::split_transfer: (payload length, more flag, delivery-tag present) of each piece
+pub fn split_transfer_sizes(
+    transfer: fe2o3_amqp_types::performatives::Transfer,
+    payload: bytes::Bytes,
+    max_frame_body_size: usize,
+) -> Result<Vec<(fe2o3_amqp_types::performatives::Transfer, bytes::Bytes)>, String> {
+    crate::frames::amqp::split_transfer(transfer, payload, max_frame_body_size).map_err(|e| format!("{:?}", e))
+}
